@@ -181,6 +181,30 @@ pub fn seg_shared_source() -> Vec<u32> {
     out
 }
 
+/// a convolution with 6 filters that is NOT the first parameterised layer (its input gradient, a sum over filters,
+/// reaches the layer in front of it)
+pub fn seg_conv6() -> Vec<u32> {
+    let mut net = Network::new(Shape::Triple(1, 5, 5));
+    net.convolution(2, (3, 3), (1, 1), (1, 1), (1, 1), Activation::Tanh, None);
+    net.convolution(6, (3, 3), (1, 1), (1, 1), (1, 1), Activation::Tanh, None);
+    net.dense(3, Activation::Linear, true, None);
+    net.set_objective(Objective::MSE, None);
+    net.set_optimizer(optimizer::SGD::create(0.05, None));
+    let mut r = Mix(0xC05_C06);
+    let fresh = neurons::verif::params(&net);
+    let filled: Vec<LayerParams> = fresh.iter().map(|p| refill_params(p, &mut r, None)).collect();
+    neurons::verif::set_params(&mut net, &filled);
+    let xs: Vec<Tensor> = (0..4).map(|_| Tensor::triple(vec![(0..5).map(|_| (0..5).map(|_| r.f(1.0)).collect()).collect()])).collect();
+    let ts: Vec<Tensor> = (0..4).map(|_| Tensor::single((0..3).map(|_| r.f(1.0)).collect())).collect();
+    let (xr, tr): (Vec<&Tensor>, Vec<&Tensor>) = (xs.iter().collect(), ts.iter().collect());
+    let (train, _, _) = net.learn(&xr, &tr, None, 2, 2, None);
+    let mut out: Vec<u32> = train.iter().map(|x| x.to_bits()).collect();
+    for p in neurons::verif::params(&net) {
+        param_bits(&p, &mut out);
+    }
+    out
+}
+
 pub fn seg_skips() -> Vec<u32> {
     let mut net = network_skips();
     let mut r = Mix(0x5C1);
@@ -299,7 +323,7 @@ pub fn partition(n: usize) -> Vec<Vec<usize>> {
         .collect()
 }
 
-pub const SEGMENTS: [&str; 14] = [
+pub const SEGMENTS: [&str; 15] = [
     "learn-adam-b2",
     "learn-adam-b3",
     "learn-adam-b5",
@@ -315,6 +339,7 @@ pub const SEGMENTS: [&str; 14] = [
     "learn-predict-wide",
     "learn-block-inskips",
     "learn-shared-source-skips",
+    "learn-conv6-second",
 ];
 
 pub fn run_segment(name: &str) -> Vec<u32> {
@@ -332,6 +357,7 @@ pub fn run_segment(name: &str) -> Vec<u32> {
         "learn-predict-wide" => seg_wide(),
         "learn-block-inskips" => seg_skips(),
         "learn-shared-source-skips" => seg_shared_source(),
+        "learn-conv6-second" => seg_conv6(),
         "predict_batch" => seg_predict(),
         "canary" => seg_canary(),
         _ => panic!("unknown segment {}", name),
